@@ -6,6 +6,7 @@ from ..env import gfapy, GfapyError
 from ..runner import Part, Violation
 
 ID = "C10"
+ATHERIS = ['purity']  # parts also driven by libFuzzer in the thorough tier (vf/runner.py: all_parts)
 RULE = ("Gfa states from generated valid documents (<= 15 lines, asymmetric CIGARs, traces, nested groups, "
         "vlevel 0-3, both versions) and random sequences (<= 25, with repetition) of calls from an explicit "
         "catalogue of read-only operations named in the property (string conversion, field/tag reads, validation, "
